@@ -35,7 +35,15 @@ def arg_shapes():
             ('range', int_lit(2), int_lit(2), False, False), ('range', int_lit(2), int_lit(2), True, False), ('range', X, int_lit(3), False, False), ('range', int_lit(0), AX, False, True),
             ('range', float_lit(0.5), float_lit(2.5), False, False), ('range', ('bin', '+', int_lit(1), int_lit(1)), int_lit(4), False, False)]
     msg = [M, ('var', 'A'), ('index', ('field', ('this',), 'ms'), int_lit(0))]
-    return {2: num, 7: prim, 56: comp, 64: msg}
+    # keyed by the NAMES of the base types of the parameter's type set (the numeric values of DataType are an implementation detail)
+    return {frozenset(['NUMBER']): num, frozenset(['BOOL', 'NUMBER', 'STRING']): prim, frozenset(['ARRAY', 'RANGE', 'SET']): comp,
+            frozenset(['MESSAGE']): msg}
+
+
+def _base_names(t):
+    from hpl.types import DataType
+    bases = ['BOOL', 'NUMBER', 'STRING', 'ARRAY', 'RANGE', 'SET', 'MESSAGE']
+    return frozenset(n for n in bases if t & DataType[n])
 
 
 def function_cases():
@@ -47,12 +55,12 @@ def function_cases():
         d = m.value
         for sig in d.overloads:
             if len(sig.parameters) == 1:
-                p = int(sig.parameters[0].value)
+                p = _base_names(sig.parameters[0])
                 for a in shapes.get(p, []):
                     out.append((('call', d.name, [a]), f'{d.name}/1'))
             else:
                 n = len(sig.parameters)
-                pool = shapes[2]
+                pool = shapes[frozenset(['NUMBER'])]
                 for k in range(len(pool)):
                     args = [pool[(k + j * 3) % len(pool)] for j in range(n)]
                     out.append((('call', d.name, args), f'{d.name}/{n}'))
